@@ -70,6 +70,11 @@ def observe_section(cid, lines, sync_extra=(), events_extra=()):
     return rec
 
 
+from chartgen import keyword_like_words  # noqa: E402
+
+KEYWORDS = keyword_like_words()
+
+
 def canonical_section(r, n, wide=()):
     """n canonical lines with strictly increasing ticks; N lines use lane / open indices only (one note per tick)."""
     out, tick = [], r.choice([0, 0, 7])
@@ -84,9 +89,11 @@ def canonical_section(r, n, wide=()):
             out.append(f"{tstr} = S 2 {ln}{pad}")
         else:
             word = r.choice(["solo", "soloend", "x=y", "é♪", "[a]", "a\"b"])
-            if wide and r.random() < 0.5:
+            if wide and r.random() < 0.4:
                 c = r.choice(wide)
                 word = r.choice([c, "a" + c, c + "b", "so" + c + "lo"])
+            elif wide and r.random() < 0.5:
+                word = r.choice(KEYWORDS)            # keyword-like words in every capitalisation
             out.append(f"{tstr} = E " + word + pad)
         tick += r.choice([1, 2, 50, 192, 1000])
     return out
@@ -107,6 +114,8 @@ def canonical_lines(r, n):
             body = f"{tick} = S 2 {ln}"
         else:
             word = "".join(r.choice(list("abcXYZ09_-=\"[]{}#é♪中.")) for _ in range(r.randrange(1, 12)))
+            if r.random() < 0.15:
+                word = r.choice(KEYWORDS)
             body = f"{tick} = E {word}"
         out.append(lead + body + trail)
     return out
@@ -171,6 +180,10 @@ def run(ctx):
         sx = r.sample(sec, min(len(sec), r.randrange(0, 4))) if mode < 0.4 else []
         ex = r.sample(sec, min(len(sec), r.randrange(0, 4))) if 0.2 < mode < 0.6 else []
         recs.append(observe_section(f"p{j}", sec, ["  " + x for x in sx] if mode < 0.2 else sx, ex))
+        if j % 5 == 0:
+            from chartgen import ITERABLE_KINDS, entry_point
+            with entry_point(ITERABLE_KINDS[(j // 5) % len(ITERABLE_KINDS)]):      # the section-level entry points, other iterables
+                recs.append(observe_section(f"p{j}-direct", sec, sx, ex))
         ctx.evaluations += 1
         ctx.distinct(["sec", sec, sx, ex])
     ctx.sample({"origin": "canonical line", "line": lines[0], "record": {k: v for k, v in recs[-1].items() if k in ("acc", "n", "s", "e")}})
